@@ -1200,6 +1200,13 @@ func best_base(bases Tuple) (*Type, error) {
 	return base, nil
 }
 
+// Returns true if t is a type object made by Go code, as opposed to a
+// class made by a class statement (a heap type) or an instance of a
+// class (which Alloc makes as an unnamed *Type)
+func (t *Type) isBuiltinType() bool {
+	return t.Name != "" && t.Flags&TPFLAGS_HEAPTYPE == 0
+}
+
 // Generic object allocator
 func (t *Type) Alloc() *Type {
 	// Set the type of the new object to this type
